@@ -93,8 +93,10 @@ class Ctx:
         else:
             res["generated"] = res["distinct"] = 0
         if simulate is not None:
-            m2 = re.findall(r"states checked: (\d+)", out.replace(",", ""))
-            m3 = re.search(r"(\d+) states checked", out)
+            m2 = re.findall(r"The number of states generated: (\d+)", out.replace(",", ""))
+            if m2:
+                # simulation mode: states visited along the generated behaviours
+                res["generated"] = res["distinct"] = int(m2[-1])
         res["violation"] = bool(re.search(r"Error: Invariant .* is violated|Error: Action property .* is violated|"
                                           r"Error: Temporal properties were violated|Error: Deadlock reached|"
                                           r"is violated by the initial state|Error: The postcondition|"
